@@ -171,6 +171,25 @@ extern "C" void vx_binop()
   }
 #endif
 #endif
+#if VX_ORACLE == ORC_EXP
+  if (ii) {
+    verif_assert(!thrown, "C03: integer ** integer is defined for every operand pair");
+    if (!thrown) {
+      verif_assert(r->type() == Value::type_integer && r->isNull() == anynull, "C03: int ** int is an integer, null exactly when an operand is null");
+      if (!anynull && !r->isNull() && B.i >= 0) {
+        unsigned long a = (unsigned long)A.i, v = (unsigned long)*r->integer();
+        /* exact result modulo 2^64: decided on the algebraic anchor points (the general case is 64 rounds of square-and-multiply) */
+        if (B.i == 0) verif_assert(v == 1UL, "C03: x ** 0 = 1");
+        if (B.i == 1) verif_assert(v == a, "C03: x ** 1 = x");
+        if (B.i == 2) verif_assert(v == a * a, "C03: x ** 2 = x * x (mod 2^64)");
+        if (B.i == 3) verif_assert(v == a * a * a, "C03: x ** 3 = x * x * x (mod 2^64)");
+        if (A.i == 2) verif_assert(v == (B.i < 64 ? 1UL << B.i : 0UL), "C03: 2 ** n = 1 << n (mod 2^64)");
+        if (A.i == 0 || A.i == 1) verif_assert(B.i == 0 || v == a, "C03: 0 ** n = 0, 1 ** n = 1");
+        if (A.i == -1) verif_assert(v == ((B.i & 1) ? ~0UL : 1UL), "C03: (-1) ** n alternates");
+      }
+    }
+  }
+#endif
 #if VX_ORACLE >= ORC_BAND && VX_ORACLE <= ORC_BXOR
   {
     /* Kleene three-valued logic, whatever produced the null (untyped NO_TYPE null or typed boolean null) */
